@@ -5,11 +5,11 @@ GROUPS = [
 
 _pl_stubs = ['cmi_hashheap.c (holder list): contract stub hhstub.h (C02)', 'cmb_resourceguard_wait/_signal, cmb_timeseries_add, cmb_time: contract stubs (cmv_guardstub.h)',
              'cmi_process_remove_holdable, cmb_process_interrupt, tag pool: recording stubs']
-def _pl(gid, entry, define, bound, canaries=1, timeout=900, entryfn=None, extra=(), tier='quick', also_extra=()):
+def _pl(gid, entry, define, bound, canaries=1, timeout=900, entryfn=None, extra=(), tier='quick', also_extra=(), replay=None):
     return Group(id=gid, prop='C07', harness='pool.c', entry=entryfn or entry, defines=[define] + list(extra), level='bounded-shape', bound=bound, backend='sat', timeout=timeout, tier=tier, unwind=6,
                  canaries=canaries, functions=['cmi_pool_acquire_inner', 'cmb_resourcepool_acquire/_preempt', 'cmb_resourcepool_release', 'resourcepool_drop_holder', 'reprioritize_holder', 'update_record',
                                                'reset_holder', 'is_available', 'sum_holder_items', 'cmb_resourcepool_held_by_process', 'record_sample'],
-                 stubs=_pl_stubs, also=['C08', 'C14', 'C10', 'C06'] + list(also_extra), replace_calls=[('cmi_mempool_alloc', 'cmv_pool_alloc'), ('cmi_mempool_free', 'cmv_pool_free')],
+                 stubs=_pl_stubs, also=['C08', 'C14', 'C10', 'C06'] + list(also_extra), replay=replay, replace_calls=[('cmi_mempool_alloc', 'cmv_pool_alloc'), ('cmi_mempool_free', 'cmv_pool_free')],
                  assumes=['<= 3 holders (the caller and two others)', '<= 2 waits per call followed', 'other processes change the pool only through the API (environment keeps I-POOL)'])
 GROUPS += [
     _pl('C07.O2.acquire', 'h_acquire', 'H_ACQUIRE', 'arbitrary holdings of the caller and one other process, capacity <= 255, any request; environment re-draws the other holding (and may preempt the caller) at every wait', canaries=2, extra=['CMV_ONE_OTHER']),
@@ -18,6 +18,7 @@ GROUPS += [
     _pl('C07.O2.acquire.3', 'h_acquire', 'H_ACQUIRE', 'three processes', canaries=2, tier='thorough', timeout=3000),
     _pl('C07.O3.preempt.3', 'h_acquire', 'H_PREEMPT', 'three processes, <= 2 victims', canaries=2, tier='thorough', timeout=3000),
     _pl('C07.O4.release', 'h_release', 'H_RELEASE', 'arbitrary holdings, any amount <= the caller holding'),
+    _pl('C07.O4.release_lost', 'h_release_lost', 'H_RELEASE_LOST', 'the caller holds nothing (preempted, notice overtaken) and releases n <= capacity', replay=replays.demo_replay('c07_preempt_interrupt_demo.c')),
     _pl('C07.O4.drop', 'h_drop', 'H_DROP', 'a holder ends: drop method', also_extra=['C09']),
     _pl('C07.O4.queries', 'h_misc', 'H_MISC', 'held_by_process, holder re-keying, recording control'),
 ]
